@@ -79,6 +79,82 @@ func init() {
 			}
 		}})
 
+	register(&Rule{ID: "C04.bootstrap", Props: []string{"C04", "C03"}, Floor: 2,
+		Doc: "the one-share-per-token bootstrap price is used only when the pool has no shares yet",
+		Run: func(e *Engine, r *RuleRun) {
+			for _, k := range []string{"types.GetDelegationSharesFromTokens", "types.ConvertNewTokenToShares"} {
+				fn := r.Need(k)
+				if fn == nil {
+					continue
+				}
+				fa := e.FA(fn)
+				isZeroShares := func(g Guard) bool {
+					if !g.Pos {
+						return false
+					}
+					c := g.Cond
+					if c.IsCall("math.LegacyDec.IsZero") && strings.Contains(strings.ToLower(c.Args[0].String()), "shares") {
+						return true
+					}
+					if c.IsCall("math.Int.Equal", "math.Int.IsZero") && strings.Contains(strings.ToLower(c.Args[0].String()), "shares") {
+						return true
+					}
+					return false
+				}
+				n := 0
+				for _, ret := range Returns(fn) {
+					t := fa.Term(ret.Results[0])
+					if !t.IsCall("math.LegacyNewDecFromInt") {
+						continue
+					}
+					n++
+					b := ret.Block()
+					ok := fa.HasGuard(ret, isZeroShares)
+					if !ok && len(b.Preds) > 0 {
+						ok = true
+						for _, p := range b.Preds {
+							edgeOK := false
+							for i, s := range p.Succs {
+								if s == b {
+									if g, has := fa.EdgeFact(p, i); has && isZeroShares(g) {
+										edgeOK = true
+									}
+								}
+							}
+							for _, g := range fa.GuardsOfBlock(p) {
+								if isZeroShares(g) {
+									edgeOK = true
+								}
+							}
+							if !edgeOK {
+								ok = false
+							}
+						}
+					}
+					r.Check(ok, k, "bootstrap price only for an empty pool", "returns one share per token only when the pool's total shares are zero", "new shares are priced one per token on a path where the pool may already hold shares: the newcomer's stake is split with the holders of the existing shares (dilution), or the newcomer takes part of theirs", r.P(ret))
+				}
+				r.Check(n == 1, k, "one bootstrap return", "found", fmt.Sprintf("%d bootstrap returns", n))
+			}
+		}})
+
+	register(&Rule{ID: "B.coinsvalid", Props: []string{"C08", "C17", "C05"}, Floor: 8,
+		Doc: "coins handed to the bank keeper are sanitised coin sets (sdk.NewCoins / Coins.Add results), never raw slices",
+		Run: func(e *Engine, r *RuleRun) {
+			for _, s := range e.bankSitesFound() {
+				fa := e.FA(s.fn)
+				args := CallArgs(s.call.Common())
+				amt := fa.Term(args[len(args)-1])
+				ok := false
+				switch {
+				case amt.IsCall("sdk.NewCoins", "sdk.Coins.Add", "sdk.Coins.Sub"):
+					ok = true
+				case amt.Op == "param", amt.Op == "phi", amt.Op == "extract", amt.Op == "ncall":
+					ok = true // produced by another function / accumulated with Coins.Add (checked where it is built)
+				}
+				r.Check(ok, FuncKey(s.fn), "coins passed to "+s.atom, "sanitised coin set", "the bank keeper is given a raw coin slice ("+amt.String()+"): a zero or unsorted coin makes the transfer fail with `invalid coins` (sdk.NewCoins drops zero coins), so a dust amount aborts the enclosing callback / end-of-block", r.P(s.call))
+			}
+		}})
+
 	register(&Rule{ID: "C04.others", Props: []string{"C04"}, Floor: 8,
 		Doc: "delegation records are written only under the acting delegator's key",
 		Run: func(e *Engine, r *RuleRun) {
